@@ -7,6 +7,10 @@ import tempfile
 import time
 
 
+# every quick-tier random budget written in the property modules is multiplied by this (they were sized for ~2 s runs)
+QUICK_SCALE = int(os.environ.get("MPV_QUICK_SCALE", "5"))
+
+
 class HarnessProblem(Exception):
     """The harness could not attach / observe: never a violation, always inconclusive."""
 
@@ -62,7 +66,8 @@ class Ctx(object):
 
     def n(self, quick, thorough):
         """Per-shard share of a total case budget."""
-        total = quick if self.tier == "quick" else thorough
+        total = quick * QUICK_SCALE if self.tier == "quick" else thorough
+        total = min(total, thorough) if self.tier == "quick" else total
         base = total // self.nshards
         return base + (1 if self.shard < total % self.nshards else 0)
 
